@@ -44,6 +44,18 @@ ATTRS = ["a", "b"]
 SIM_FNS = ["any", "all", "two"]
 
 
+# protocol classes, as tags: 0 = P0, 1 = P1 (two concrete roles), 2 = P2, a role derived from P0; 3 = the roles'
+# common base protocol, 4 = IProtocol itself.  Nodes run 0..2; an assertion may be stated for any of the five.
+NODE_CLASSES = [0, 1, 2]
+BASE, IPROTO = 3, 4
+SUB = [[0, BASE], [0, IPROTO], [1, BASE], [1, IPROTO], [2, 0], [2, BASE], [2, IPROTO], [BASE, IPROTO]]
+
+
+def is_a(cls, T):
+    """isinstance: a node whose protocol is of class `cls` is a node of the stated protocol type `T`"""
+    return cls == T or [cls, T] in SUB
+
+
 def sim_fn(fn, values):
     if fn == "any":
         return any(values)
@@ -200,7 +212,10 @@ def make_protocols():
     class P1(Base):
         pass
 
-    return [P0, P1]
+    class P2(P0):
+        """a role derived from another role: its nodes are nodes of protocol type P0 as well"""
+
+    return [P0, P1, P2, Base, IProtocol]
 
 
 def make_assertion(idx, sp, classes):
@@ -292,7 +307,11 @@ class Run:
 
     def build(self):
         sim = self.sim
-        conf = SimulationConfiguration(max_iterations=sim.get("maxIter"), execution_logging=False)
+        # observation options of the public configuration (profiling report, debug logging, execution logging):
+        # they change what is logged, never what the run does
+        opts = {"execution_logging": False}
+        opts.update(sim.get("options") or {})
+        conf = SimulationConfiguration(max_iterations=sim.get("maxIter"), **opts)
         builder = SimulationBuilder(conf)
         handlers = {"assertion": make_handler(self.handler_kind, self.assertions), "timer": TimerHandler()}
         for label in (["assertion", "timer"] if sim.get("order", "assertion-first") == "assertion-first"
@@ -387,14 +406,18 @@ class C18(Check):
                   "full strength. Tied to the real AssertionHandler inside real simulations by differential execution "
                   "(every simulation of a batch sharing its decorated assertions against its own model run).")
     rule = ("real simulations with a TimerHandler and an AssertionHandler holding 1-3 assertions of the four decorator kinds; "
-            "1-4 nodes of 2 protocol classes whose boolean attributes are flipped by scripted timers (0-7 events, ties, noise "
+            "1-4 nodes of 2 protocol classes (in a third of the cases 3 classes in a hierarchy: a role derived from "
+            "another role, with the protocol-scoped assertions stated for the roles' common base protocol, for "
+            "IProtocol itself or for the role that has a derived one - the deciding node mostly of a derived class) "
+            "whose boolean attributes are flipped by scripted timers (0-7 events, ties, noise "
             "events, max_iterations cuts incl. 0); in half of the runs timers are cancelled in initialize or by an earlier "
             "timer of the same node (the leading events, all events, random ones) so that executed events run no protocol "
             "callback, with always-predicates false and eventually-predicates true from initialize on (and taken back by a "
             "later event), so that the deciding event is a cancelled timer's; the first always-violation placed at every position 0..last or nowhere, on "
             "the last node of the asserted type, with nodes of the other type violating from the start; eventually-predicates "
             "met at a chosen position, after the cut, or never, per node; zero-event runs; start_simulation and manual "
-            "stepping; both handler registration orders; in half of the cases the assertions are installed through a "
+            "stepping; both handler registration orders; 45% of the simulations run with observation options of "
+            "SimulationConfiguration switched on (profile=True, debug=True, execution_logging=True, alone or combined); in half of the cases the assertions are installed through a "
             "user-defined class derived from AssertionHandler (own constructor / intermediate base class / reporting around "
             "register_node and finalize / after-step hook wrapped via super()); besides the single simulations, batches of "
             "2-3 simulations that are handed the SAME decorated assertions and protocol classes, with unrelated, shrinking, "
@@ -402,7 +425,9 @@ class C18(Check):
             "before any is run (any order) or stepped side by side, every run judged by its own timeline (mostly "
             "eventually-assertions, so that runs which pass, fail at the end and leave unmet node ids meet); "
             "non-trivial = both protocol types present and the deciding node is the last node of the asserted type")
-    assumptions = ["predicates are judged after each executed event (never before the first)",
+    assumptions = ["'node of the stated protocol type' is the instance-of relation: a node whose protocol class derives from "
+                   "the stated type is a node of that type (as for every Python type annotation / isinstance)",
+                   "predicates are judged after each executed event (never before the first)",
                    "same-instant timers run in scheduling order (C03) - used only to script the timeline",
                    "manual stepping stops at the first exception (the blocking-run reading of 'no further event')",
                    "the event of a cancelled timer is an executed event (it is taken from the event loop and counted as an "
@@ -430,9 +455,23 @@ class C18(Check):
         for i in range(m):
             yield self.gen_batch(stable_hash("C18", "batch", seed, i), i, f"batch/{seed}/{i}")
 
-    def gen_case(self, s, i, label, specs=None, ptypes=None):
+    @staticmethod
+    def gen_hier_specs(rh, specs):
+        """protocol-scoped assertions stated for a base type: the roles' common base protocol, IProtocol itself
+        (= every node), or left at P0 (whose nodes include those of the derived role P2)"""
+        for sp in specs:
+            if sp["kind"].endswith("Proto"):
+                m = rh.random()
+                if m < 0.4:
+                    sp["T"] = BASE
+                elif m < 0.55:
+                    sp["T"] = IPROTO
+                elif m < 0.8:
+                    sp["T"] = 0
+
+    def gen_case(self, s, i, label, specs=None, ptypes=None, hier=None):
         """one simulation; `specs` / `ptypes` given = a member of a batch, scripted against the batch's shared
-        assertions and with the population the batch wants"""
+        assertions and with the population the batch wants (`hier`: the batch's decision about class hierarchies)"""
         r = random.Random(s)
         nn = r.choice([1, 2, 2, 3, 3, 4, 4])
         own_ptypes = [r.randint(0, 1) for _ in range(nn)]
@@ -461,11 +500,20 @@ class C18(Check):
                     specs.append({"kind": kind, "T": r.randint(0, 1), "attr": attr})
                 else:
                     specs.append({"kind": kind, "fn": r.choice(SIM_FNS), "attr": attr})
+        # (own random stream)  a third of the cases have a class hierarchy among the protocols: some nodes run a role
+        # derived from P0, and the protocol-scoped assertions are mostly stated for a base type
+        rh = random.Random(stable_hash("C18", "hier", s))
+        if hier is None:
+            hier = rh.random() < 0.35
+        if hier:
+            ptypes = [2 if t == 0 and rh.random() < 0.5 else t for t in ptypes]
+            if not member:
+                self.gen_hier_specs(rh, specs)
         # script the attributes: 'a' carries the always-predicates, 'b' the eventually-predicates
         T = next((sp["T"] for sp in specs if sp["kind"] == "alwaysProto"), r.randint(0, 1))
-        of_T = [k for k in range(nn) if ptypes[k] == T]
+        of_T = [k for k in range(nn) if is_a(ptypes[k], T)]
         for k in range(nn):
-            if ptypes[k] != T and r.random() < 0.5:
+            if not is_a(ptypes[k], T) and r.random() < 0.5:
                 init[k]["a"] = False            # the OTHER type violates from the start: must not matter
         pos = r.choice([None] + list(range(L))) if L else None
         if pos is not None and of_T:
@@ -475,7 +523,7 @@ class C18(Check):
             if pos + 1 < L and r.random() < 0.4:
                 events[pos + 1] = [times[pos + 1], victim, "a", True]      # recovers: 'first' matters
         E = next((sp["T"] for sp in specs if sp["kind"] == "eventuallyProto"), r.randint(0, 1))
-        of_E = [k for k in range(nn) if ptypes[k] == E]
+        of_E = [k for k in range(nn) if is_a(ptypes[k], E)]
         free = [k for k in range(L) if events[k][2] is None]
         r.shuffle(free)
         mode = r.choice(["all", "all-but-last", "none", "other-type-only", "random"])
@@ -497,9 +545,28 @@ class C18(Check):
         self.gen_stale(random.Random(stable_hash("C18", "stale", s)), ptypes, init, events, of_T, of_E)
         sim = {"ptypes": ptypes, "init": init, "events": events, "order": r.choice(["assertion-first", "timer-first"]),
                "maxIter": max_iter, "drive": {"mode": r.choice(["start", "steps"])}}
+        options = self.gen_options(s)
+        if options:
+            sim["options"] = options
         if member:
             return sim
         return {"kind": "assertions", "seed": s, "label": label, "specs": specs, "handler": self.gen_handler(s), **sim}
+
+    @staticmethod
+    def gen_options(s):
+        """(own random stream)  observation options of SimulationConfiguration: 45% of the simulations run with
+        some of profile=True / debug=True / execution_logging=True (the harness default is execution_logging=False)"""
+        r = random.Random(stable_hash("C18", "options", s))
+        if r.random() < 0.55:
+            return None
+        options = {}
+        if r.random() < 0.6:
+            options["profile"] = True
+        if r.random() < 0.35:
+            options["debug"] = True
+        if r.random() < 0.4:
+            options["execution_logging"] = True
+        return options or {"profile": True}
 
     @staticmethod
     def gen_handler(s):
@@ -521,6 +588,10 @@ class C18(Check):
                 specs.append({"kind": kind, "T": r.randint(0, 1), "attr": attr})
             else:
                 specs.append({"kind": kind, "fn": r.choice(SIM_FNS), "attr": attr})
+        rh = random.Random(stable_hash("C18", "hier-batch", s))
+        hier = rh.random() < 0.3
+        if hier:
+            self.gen_hier_specs(rh, specs)
         count = r.choice([2, 2, 2, 3])
         shape = r.choice(["free", "shrinking", "shrinking", "retyped", "same", "growing"])
         sims, ptypes = [], None
@@ -532,10 +603,10 @@ class C18(Check):
                 elif shape == "growing":
                     ptypes = (prev + [r.randint(0, 1), r.randint(0, 1)])[:min(4, len(prev) + r.randint(1, 2))]
                 elif shape == "retyped":
-                    ptypes = [1 - t if r.random() < 0.5 else t for t in prev]
+                    ptypes = [1 - min(t, 1) if r.random() < 0.5 else t for t in prev]
                 else:
                     ptypes = list(prev)
-            sims.append(self.gen_case(stable_hash("C18", "member", s, j), i, label, specs=specs, ptypes=ptypes))
+            sims.append(self.gen_case(stable_hash("C18", "member", s, j), i, label, specs=specs, ptypes=ptypes, hier=hier))
         plan = r.choice(["sequential", "build-first", "build-first", "interleaved", "interleaved"])
         case = {"kind": "assertions", "seed": s, "label": label, "specs": specs, "handler": self.gen_handler(s),
                 "plan": plan, "sims": sims}
@@ -606,7 +677,7 @@ class C18(Check):
                 if sp["kind"].endswith("Proto"):
                     d["T"] = sp["T"]
                 specs.append(d)
-            runs.append({"n": len(sim["ptypes"]), "ptypes": sim["ptypes"], "N": run_length(sim),
+            runs.append({"n": len(sim["ptypes"]), "ptypes": sim["ptypes"], "sub": SUB, "N": run_length(sim),
                          "eager": self.eager(), "specs": specs})
         return {"kind": "assertion", "runs": runs}
 
@@ -653,7 +724,7 @@ class C18(Check):
 
         def violated(sp, tab, i):
             if sp["kind"] == "alwaysProto":
-                return any(ptypes[k] == sp["T"] and not tab[i][k] for k in range(len(ptypes)))
+                return any(is_a(ptypes[k], sp["T"]) and not tab[i][k] for k in range(len(ptypes)))
             if sp["kind"] == "alwaysSim":
                 return not tab[i]
             return False
@@ -664,7 +735,7 @@ class C18(Check):
             if sp["kind"] == "eventuallySim" and not any(tab[i] for i in range(N)):
                 never.append(sp)
             if sp["kind"] == "eventuallyProto" and any(
-                    ptypes[k] == sp["T"] and not any(tab[i][k] for i in range(N)) for k in range(len(ptypes))):
+                    is_a(ptypes[k], sp["T"]) and not any(tab[i][k] for i in range(N)) for k in range(len(ptypes))):
                 never.append(sp)
         return N, first, never
 
@@ -722,14 +793,14 @@ class C18(Check):
         if first is not None:
             for sp, tab in zip(specs, tables):
                 if sp["kind"] == "alwaysProto":
-                    bad = [k for k in range(len(ptypes)) if ptypes[k] == sp["T"] and not tab[first][k]]
-                    last = max(k for k in range(len(ptypes)) if ptypes[k] == sp["T"]) if sp["T"] in ptypes else None
+                    bad = [k for k in range(len(ptypes)) if is_a(ptypes[k], sp["T"]) and not tab[first][k]]
+                    last = max((k for k in range(len(ptypes)) if is_a(ptypes[k], sp["T"])), default=None)
                     if bad and bad == [last]:
                         return True
             return False
         for sp, tab in zip(specs, tables):
             if sp in never and sp["kind"] == "eventuallyProto":
-                of = [k for k in range(len(ptypes)) if ptypes[k] == sp["T"]]
+                of = [k for k in range(len(ptypes)) if is_a(ptypes[k], sp["T"])]
                 missing = [k for k in of if not any(tab[i][k] for i in range(N))]
                 if of and missing == [of[-1]] and N > 0:
                     return True
@@ -747,10 +818,11 @@ class C18(Check):
                "verdicts": [obs["verdict"] for obs in impl["runs"]], "executed": [obs["executed"] for obs in impl["runs"]]}
         if "sims" in case:
             out.update({"plan": case.get("plan"), "sims": [{"ptypes": sim["ptypes"], "events": sim["events"],
-                                                            "maxIter": sim.get("maxIter")} for sim in sims]})
+                                                            "maxIter": sim.get("maxIter"),
+                                                            "options": sim.get("options")} for sim in sims]})
         else:
             out.update({"ptypes": case["ptypes"], "events": case["events"], "maxIter": case.get("maxIter"),
-                        "drive": case["drive"]})
+                        "drive": case["drive"], "options": case.get("options")})
         return out
 
     def stats(self, case, impl, acc):
@@ -782,9 +854,9 @@ class C18(Check):
         """a node id whose protocol-scoped eventually-predicate is never met in one simulation is no node of the
         asserted type in another simulation of the batch, where everything is met"""
         for sp, tabs in ((sp, [pred_tables(sim, [sp])[0] for sim in sims]) for sp in specs if sp["kind"] == "eventuallyProto"):
-            met = [{k for k, t in enumerate(sim["ptypes"]) if t == sp["T"] and any(tab[i][k] for i in range(run_length(sim)))}
+            met = [{k for k, t in enumerate(sim["ptypes"]) if is_a(t, sp["T"]) and any(tab[i][k] for i in range(run_length(sim)))}
                    for sim, tab in zip(sims, tabs)]
-            of = [{k for k, t in enumerate(sim["ptypes"]) if t == sp["T"]} for sim in sims]
+            of = [{k for k, t in enumerate(sim["ptypes"]) if is_a(t, sp["T"])} for sim in sims]
             for a in range(len(sims)):
                 for b in range(len(sims)):
                     if a != b and (of[a] - met[a]) - of[b] and met[b] == of[b]:
@@ -793,9 +865,9 @@ class C18(Check):
 
     def met_in_one_unmet_in_other(self, sims, specs):
         for sp, tabs in ((sp, [pred_tables(sim, [sp])[0] for sim in sims]) for sp in specs if sp["kind"] == "eventuallyProto"):
-            met = [{k for k, t in enumerate(sim["ptypes"]) if t == sp["T"] and any(tab[i][k] for i in range(run_length(sim)))}
+            met = [{k for k, t in enumerate(sim["ptypes"]) if is_a(t, sp["T"]) and any(tab[i][k] for i in range(run_length(sim)))}
                    for sim, tab in zip(sims, tabs)]
-            of = [{k for k, t in enumerate(sim["ptypes"]) if t == sp["T"]} for sim in sims]
+            of = [{k for k, t in enumerate(sim["ptypes"]) if is_a(t, sp["T"])} for sim in sims]
             for a in range(len(sims)):
                 for b in range(len(sims)):
                     if a != b and met[a] & (of[b] - met[b]):
@@ -807,6 +879,10 @@ class C18(Check):
         N, first, never = self.expectation(case, specs)
         acc[f"events_{min(N, 7)}"] = acc.get(f"events_{min(N, 7)}", 0) + 1
         acc["drive_" + case["drive"]["mode"]] = acc.get("drive_" + case["drive"]["mode"], 0) + 1
+        for name in sorted(case.get("options") or {}):
+            acc["option_" + name] = acc.get("option_" + name, 0) + 1
+            if name == "profile" and never and first is None:
+                acc["profile_with_unmet_eventually"] = acc.get("profile_with_unmet_eventually", 0) + 1
         v = impl["verdict"]
         k = "verdict_" + (v if isinstance(v, str) else f"failedAfter")
         acc[k] = acc.get(k, 0) + 1
@@ -816,6 +892,21 @@ class C18(Check):
                 acc["first_violation_at_last"] = acc.get("first_violation_at_last", 0) + 1
         for sp in specs:
             acc["spec_" + sp["kind"]] = acc.get("spec_" + sp["kind"], 0) + 1
+        ptypes = case["ptypes"]
+        if 2 in ptypes:
+            acc["runs_with_nodes_of_a_derived_role"] = acc.get("runs_with_nodes_of_a_derived_role", 0) + 1
+        tables = pred_tables(case, specs)
+        for sp, tab in zip(specs, tables):
+            if not sp["kind"].endswith("Proto"):
+                continue
+            stated = {BASE: "common_base", IPROTO: "IProtocol"}.get(sp["T"], "concrete_class")
+            acc["stated_for_" + stated] = acc.get("stated_for_" + stated, 0) + 1
+            inherited = [k for k in range(len(ptypes)) if is_a(ptypes[k], sp["T"]) and ptypes[k] != sp["T"]]
+            if sp["kind"] == "alwaysProto" and first is not None and any(not tab[first][k] for k in inherited) and \
+                    not any(not tab[first][k] for k in range(len(ptypes)) if ptypes[k] == sp["T"]):
+                acc["first_violation_by_node_of_a_subclass_only"] = acc.get("first_violation_by_node_of_a_subclass_only", 0) + 1
+            if sp["kind"] == "eventuallyProto" and first is None and sp not in never and inherited and N > 0:
+                acc["eventually_met_by_nodes_of_subclasses"] = acc.get("eventually_met_by_nodes_of_subclasses", 0) + 1
         ex = execution(case)
         silent = [i for i, (_, runs) in enumerate(ex) if not runs]
         if silent:
@@ -836,7 +927,7 @@ class C18(Check):
             if sp["kind"] == "eventuallySim" and any(tab[i] for i in range(N)) and not any(tab[i] for i in rest):
                 return True
             if sp["kind"] == "eventuallyProto":
-                of = [k for k in range(len(ptypes)) if ptypes[k] == sp["T"]]
+                of = [k for k in range(len(ptypes)) if is_a(ptypes[k], sp["T"])]
                 if of and all(any(tab[i][k] for i in range(N)) for k in of) and \
                         not all(any(tab[i][k] for i in rest) for k in of):
                     return True
@@ -911,6 +1002,13 @@ class C18(Check):
                             break
                 if sims_of(best)[si].get("maxIter") is not None:
                     changed |= attempt(lambda c: sims_of(c)[si].__setitem__("maxIter", None))
+                if sims_of(best)[si].get("options"):
+                    if not attempt(lambda c: sims_of(c)[si].pop("options")):
+                        for name in list(sims_of(best)[si]["options"]):
+                            if len(sims_of(best)[si]["options"]) > 1:
+                                changed |= attempt(lambda c: sims_of(c)[si]["options"].pop(name, None))
+                    else:
+                        changed = True
         return best
 
 
